@@ -683,7 +683,7 @@ type c05Shared struct {
 var c05StubOnce sync.Once
 var c05ClipCount atomic.Int64
 
-func c05NewEnv(sh *c05Shared, sc *c05Scenario, rng *rand.Rand) *c05Env {
+func c05NewEnv(sh *c05Shared, sc *c05Scenario, rng *rand.Rand, si int) *c05Env {
 	c05StubOnce.Do(func() {
 		writeToClipboard = func(buf []byte) { c05ClipCount.Add(1) }
 	})
@@ -692,7 +692,7 @@ func c05NewEnv(sh *c05Shared, sc *c05Scenario, rng *rand.Rand) *c05Env {
 	e.opts = TrzszOptions{TerminalColumns: 100, DetectDragFile: sc.Opts.Drag, DetectTraceLog: sc.Opts.Tlog,
 		EnableZmodem: sc.Opts.Zmodem, EnableOSC52: sc.Opts.Osc52}
 	e.tr.Emit(map[string]any{"e": "reset", "drag": sc.Opts.Drag, "zmodem": sc.Opts.Zmodem, "osc52": sc.Opts.Osc52,
-		"tlog": sc.Opts.Tlog, "sc": sc.Name}, nil)
+		"tlog": sc.Opts.Tlog, "sc": sc.Name, "si": si}, nil)
 	e.f = NewTrzszFilter(&c05Reader{e, "in"}, &c05Writer{e, "cli"}, &c05Writer{e, "srv"}, &c05Reader{e, "out"}, e.opts)
 	// steer: both pumps are in their loops; wrapInput's helper goroutine has switched drag detection on
 	for i := 0; i < 20000 && !(e.entered[0].Load() && e.entered[1].Load() && (!sc.Opts.Drag || c05DragFlagOn())); i++ {
@@ -872,12 +872,20 @@ func (e *c05Env) xfer(how string, up bool, v int, dragPaths []string) (*c05XferR
 		return res, nil
 	}
 
+	var srvErr error
+	srvReturned := false
+	gateHit := gate == nil
 	if gate != nil {
 		select {
 		case <-gate.hit:
+			gateHit = true
+		case srvErr = <-serverDone: // the transfer ended before it got that far (it is not going as planned)
+			srvReturned = true
 		case <-time.After(30 * time.Second):
-			return nil, fmt.Errorf("transfer (%s) did not reach the gate %q", how, gate.sub)
+			return nil, fmt.Errorf("transfer (%s) neither reached the gate %q nor ended", how, gate.sub)
 		}
+	}
+	if gate != nil && gateHit {
 		if how == "cancel" && v%2 == 0 {
 			e.tr.Emit(map[string]any{"e": "stop"}, func() { e.f.StopTransferringFiles(v%4 == 0) })
 		} else {
@@ -908,14 +916,52 @@ func (e *c05Env) xfer(how string, up bool, v int, dragPaths []string) (*c05XferR
 		close(gate.release)
 	}
 
-	select {
-	case err := <-serverDone:
-		if err != nil {
-			res.ServerErr = e2eC05First(err.Error())
+	if !srvReturned {
+		select {
+		case srvErr = <-serverDone:
+		case <-time.After(90 * time.Second):
+			return nil, fmt.Errorf("server side of history %s did not return within 90s", how)
 		}
-	case <-time.After(90 * time.Second):
-		return nil, fmt.Errorf("server side of history %s did not return within 90s", how)
 	}
+	if srvErr != nil {
+		res.ServerErr = e2eC05First(srvErr.Error())
+	}
+	// a history planned to succeed (cooperative real server, nothing injected) must deliver the files
+	ok, why := true, ""
+	if how == "success" {
+		switch {
+		case srvErr != nil:
+			ok, why = false, "server: "+res.ServerErr
+		case !gateHit:
+			ok, why = false, "ended before all data was sent"
+		default:
+			from := src
+			if dragPaths != nil {
+				f1, f2, _ := e.existingPaths()
+				from = nil
+				for _, p := range []string{f1, f2} {
+					if _, err := os.Stat(filepath.Join(dst, filepath.Base(p))); err == nil {
+						from = append(from, p)
+					}
+				}
+				if len(from) == 0 {
+					ok, why = false, "no dragged file arrived"
+				}
+			}
+			for _, p := range from {
+				a, _ := os.ReadFile(p)
+				b, err := os.ReadFile(filepath.Join(dst, filepath.Base(p)))
+				if err != nil || !bytes.Equal(a, b) {
+					ok, why = false, "destination differs from source: "+filepath.Base(p)
+				}
+			}
+		}
+	}
+	if strings.Contains(strings.ToLower(why), "timeout") {
+		return nil, fmt.Errorf("history planned to succeed timed out (%s)", why) // the machine, not the filter
+	}
+	e.tr.Emit(map[string]any{"e": "xfer", "how": how, "ok": ok, "why": why}, nil)
+	res.Note = why
 	// last words of the server (serverExit prints to its stdout = our serverOut)
 	if b := e.drainStdout(); len(b) > 0 {
 		if _, err := e.feed("out", "srvmsg", b); err != nil {
@@ -1369,7 +1415,7 @@ func c05RunAll(d *vCtx, scs []*c05Scenario, stream int64) error {
 	chunks, xfers := 0, 0
 	for i, sc := range scs {
 		rng := d.rng(stream*100000 + int64(i))
-		e := c05NewEnv(sh, sc, rng)
+		e := c05NewEnv(sh, sc, rng, i)
 		err := e.run(sc)
 		e.close()
 		chunks += e.nextID
